@@ -465,7 +465,7 @@ def cases(tier, seed):
         profiles = [1, 2, 5, [1] + [2] * (d - 1) + [1], [1] + [1 + (k % 4) for k in range(d - 1)] + [1],
                     [1] + [max(1, 6 - 2 * k) for k in range(d - 1)] + [1]]
         for r in profiles:
-            for rep in range(3 if big else 1):
+            for rep in range(6 if big else 1):
                 a, b = [(-1.0, 1.0), (0.0, 1.0), (2.5, 2.75), (-1e6, 3e6), (-1e-8, 1e-8)][int(g.integers(5))]
                 yield 'C19.rand.range', dict(n=n, r=r, a=a, b=b, seed=rs(), as_array=bool(rep % 2) or r == 5)
                 yield 'C19.rand_norm.distribution', dict(n=n, r=r, m=0.0, s=1.0, seed=rs())
